@@ -193,13 +193,14 @@ def runeAtEOF (a : LSt) : LSt :=
   let a := match a.buf with
     | some (0, bp) => { a with consumed := a.consumed - bp + 1, buf := some (0, 1) }
     | _ => a
-  { a with r := runeEOF, w := 1, behind := none }
+  { a with r := runeEOF, w := 1 }
 
 def runeStep (bq : Nat) (a : LSt) : Step :=
+  let a := a.forget
   match a.rest with
   | [] => .done (runeAtEOF a)
   | b :: _ =>
-    let a := { a.forget with look := max a.look 1 }
+    let a := { a with look := max a.look 1 }
     if b.toNat < 0x80 then runeAscii b bq a else .done (runeDecode a)
 
 def runeLoop : Nat → Nat → LSt → LSt
